@@ -126,6 +126,7 @@ fixed = [
     ("C16", "a983df0", "MemOrchestrator._register_new_invocations overwrote the record of an existing invocation (C16/R5)"),
     ("C05", "82499b9", "PynencError subclasses without attributes lost Exception.args on serialisation (C05/R4)"),
     ("C18", "f31d3bd", "WorkflowContext.deterministic cached the executor of the first invocation on the per-process Task (C18/R1)"),
+    ("C12", "02fb446", "calculate_time_slot computed a window's end as start + slot - margin: with margin 0 the rounded end could exceed the next window's rounded start by one ulp, two runners authorised at one instant, e.g. N=7, 6 min (C12/R6; findings/repro/r15_slot_rounding.py)"),
 ]
 out = {
     "_comment": "Committed by hand (generated with findings/make_known.py at development time). Checks only READ this file. A 'fixed' entry suppresses nothing.",
